@@ -63,10 +63,22 @@ def run_cancel(rep, count, mode_args, with_invalid):
         rnd = random.Random(rep.seed + 2)
         ng = 4000 if count <= 5000 else 60000
         gcmd = ["python3", os.path.join(verif.ROOT, "checks", "gen_sql_grammar.py"), str(rep.seed), str(ng)]
-        rcg, outg = verif.sh(gcmd + ["--gaps"], timeout=1200)
+        # --hex: one statement per line whatever bytes it contains (text mode + splitlines() cut statements at a raw CR, TAB-LF or
+        # other line break inside a string literal, and the unterminated first half was then used as a "statement")
+        rcg, outg = verif.sh(gcmd + ["--gaps", "--hex"], timeout=1200)
         if rcg != 0:
-            rcg, outg = verif.sh(gcmd, timeout=1200)
-        cand = [l for l in outg.splitlines() if l.strip() and ";" not in l and not re.search(r"(?i)\binsert\b.*\b(format|values)\b", l)]
+            rcg, outg = verif.sh(gcmd + ["--hex"], timeout=1200)
+        cand = []
+        for hl in outg.split("\n"):
+            hl = hl.strip()
+            if not hl:
+                continue
+            try:
+                l = bytes.fromhex(hl).decode("utf-8", "surrogateescape")
+            except ValueError:
+                continue
+            if l.strip() and ";" not in l and not re.search(r"(?is)\binsert\b.*\b(format|values)\b", l):
+                cand.append(l)
         # ... and every statement of the corpus : each statement KIND of the
         # corpus is followed by another statement at least once, whatever the random scripts above happened to pick
         corp = [l.rstrip("\n") for l in open(CORPUS, encoding="utf-8", errors="surrogateescape")]
